@@ -1,14 +1,16 @@
 (* C16: the recorded finding classes of aggregate queries (definitions only).
    q_class q t = 0: the query / table lies outside every recorded class; k > 0: class k.
    The classes are decidable and narrow; each is refuted by a concrete query in Proof/AggRefute.v
-   and listed in known_findings.d/C16.json:
-     6  a GROUP BY key that is not a plain column   (shown as NULL; NULL keys vanish from the group key)
-     5  an aggregate argument that is not a plain column   (column 0 is aggregated instead)
-     7  HAVING uses an aggregate that is not in the select list   (it reads as NULL)
-     4  MIN / MAX over text   (NULL)
-     1  COUNT(e) where e is NULL on some row   (NULLs are counted)
-     2  SUM over a group without a non-NULL value   (0 instead of NULL)
-     3  an integer SUM / AVG whose running sum leaves the i64 range   (panic) *)
+   and listed in known_findings.d/C16.json.  Still open:
+     6  HAVING mentions a GROUP BY key that is not a plain column   (it reads as NULL)
+     5  an aggregate over an expression is looked up BY NAME (HAVING, or a select list that also
+        selects an expression key): the name is the bare function name, shared by every such
+        aggregate of that function and by COUNT( * )
+     8  an aggregate over a join (Corr/C16.v; Model/AggJoin.v)
+   Repaired in /repo (classes 1 2 3 4 7 and the former, wider 5 and 6): COUNT(col) counted NULLs; SUM
+   over no non-NULL value was 0; integer SUM / AVG overflow panicked; MIN / MAX over TEXT were NULL; an
+   aggregate over an expression aggregated column 0; GROUP BY over an expression showed NULL and
+   merged groups; HAVING over an unselected aggregate kept no group. *)
 From Coq Require Import ZArith List Bool.
 From TV Require Export Model.SqlSpecAgg.
 Import ListNotations.
@@ -51,46 +53,24 @@ Fixpoint running_overflow (acc : Z) (vs : list (option value)) : bool :=
   | _ :: t => running_overflow acc t
   end.
 
-Definition cls_key_expr (q : aquery) : bool := negb (forallb is_plain (q_keys q)).
+Definition nonplain_agg (a : agg) : bool :=
+  match a_fn a with FCountStar => false | _ => negb (is_plain (a_arg a)) end.
+Definition having_cols (q : aquery) : list nat :=
+  match q_having q with Some h => cols_of h | None => [] end.
+(* some selected key is an expression: the select list is evaluated by ProjectExpr, aggregates by name *)
+Definition sel_expr_key (q : aquery) : bool :=
+  existsb (fun i => match nth_error (q_keys q) i with Some k => negb (is_plain k) | None => false end) (q_sel q).
+Definition cls_key_expr (q : aquery) : bool :=
+  existsb (fun i => match nth_error (q_keys q) i with Some k => negb (is_plain k) | None => false end) (having_cols q).
 Definition cls_arg_expr (q : aquery) : bool :=
-  existsb (fun a => match a_fn a with FCountStar => false | _ => negb (is_plain (a_arg a)) end) (q_aggs q).
-Definition cls_having_agg (q : aquery) : bool :=
-  match q_having q with
-  | None => false
-  | Some h => existsb (fun i => negb (Nat.ltb i (length (q_keys q))) && negb (nat_in i (q_sel q))) (cols_of h)
-  end.
-Definition cls_text_ext (q : aquery) (t : table) : bool :=
-  existsb (fun a => match a_fn a with
-                    | FMin | FMax => existsb (fun o => match o with Some (VText _) | Some (VBool _) => true | _ => false end)
-                                             (arg_vals a (input_rows q t))
-                    | _ => false
-                    end) (q_aggs q).
-Definition cls_count_null (q : aquery) (t : table) : bool :=
-  existsb (fun a => match a_fn a with
-                    | FCount => existsb (fun o => match o with Some VNull => true | _ => false end)
-                                        (arg_vals a (input_rows q t))
-                    | _ => false
-                    end) (q_aggs q).
-Definition cls_sum_empty (q : aquery) (t : table) : bool :=
-  existsb (fun a => match a_fn a with
-                    | FSum => existsb (fun g => forallb (fun o => match o with Some VNull => true | _ => false end)
-                                                        (arg_vals a g)) (ref_groups q t)
-                    | _ => false
-                    end) (q_aggs q).
-Definition cls_overflow (q : aquery) (t : table) : bool :=
-  existsb (fun a => match a_fn a with
-                    | FSum | FAvg => existsb (fun g => running_overflow 0 (arg_vals a g)) (ref_groups q t)
-                    | _ => false
-                    end) (q_aggs q).
+  let nk := length (q_keys q) in
+  let bad := fun i => negb (Nat.ltb i nk) &&
+                      match nth_error (q_aggs q) (i - nk) with Some a => nonplain_agg a | None => false end in
+  existsb bad (having_cols q) || (sel_expr_key q && existsb bad (q_sel q)).
 
 Definition q_class (q : aquery) (t : table) : Z :=
   if cls_key_expr q then 6
   else if cls_arg_expr q then 5
-  else if cls_having_agg q then 7
-  else if cls_text_ext q t then 4
-  else if cls_count_null q t then 1
-  else if cls_sum_empty q t then 2
-  else if cls_overflow q t then 3
   else 0.
 
 (* ------------------------------------------------------------------ one aggregate over one list of values *)
